@@ -1,0 +1,13 @@
+//go:build verif
+
+// Contracts for package middlewares, read by /verif/govc. Comments only; compiled only with tag "verif".
+package middlewares
+
+// ---- C15: bucket creation is refused in read-only mode ------------------------
+// A request of the create-bucket shape (PUT on a single path segment without a bucket
+// sub-resource) is passed on to the handlers only when the read-only switch is off.
+//@ func AclParser$1
+//@   let q = ctx.Request().URI().QueryArgs()
+//@   at-call fiber.Ctx.Next {C15} [create-gate] when singlePath.MatchString(ctx.Path()) && ctx.Method() == "PUT" \
+//@        && !q.Has("acl") && !q.Has("tagging") && !q.Has("versioning") && !q.Has("policy") && !q.Has("object-lock") \
+//@        && !q.Has("ownershipControls") && !q.Has("cors") :: requires !readonly
